@@ -500,7 +500,11 @@ func (c *Ctx) scannedLocalsReachResult(rule string, methods ...string) {
 				for _, g := range c.OpFuncs(f) {
 					for _, ci := range Calls(g) {
 						d := c.P.Describe(ci)
-						if d.Static == nil || d.Static.Name() != "Scan" || !strings.HasPrefix(d.Name, "database/sql.") || len(d.Args) != 1 {
+						// (*sql.Row).Scan / (*sql.Rows).Scan, or Scan on an interface of the module that both satisfy
+						// (`type rowScanner interface{ Scan(dest ...any) error }` shared by single-row and list readers)
+						isSQLScan := d.Static != nil && d.Static.Name() == "Scan" && strings.HasPrefix(d.Name, "database/sql.")
+						isIfaceScan := d.Iface != nil && d.Iface.Name() == "Scan" && d.Iface.Pkg() != nil && c.P.InModule(d.Iface.Pkg().Path())
+						if !(isSQLScan || isIfaceScan) || len(d.Args) != 1 {
 							continue
 						}
 						dests, ok := VarArgs(d.Args[0])
